@@ -478,8 +478,10 @@ _SIZES = {'double': 8, 'float': 4, 'unsigned int': 4, 'int': 4, 'unsigned long':
 
 
 class Model:
-    def __init__(self, fb, enum_sizes=None, max_steps=20000):
+    def __init__(self, fb, enum_sizes=None, max_steps=20000, hooks=None, atomic_points=True):
         self.fb = fb
+        self.hooks = hooks or {}
+        self.atomic_points = atomic_points
         self.enum_sizes = enum_sizes or {}
         self.max_steps = max_steps
         self.steps = 0
@@ -857,6 +859,8 @@ class _Frame:
         q = n.get('q') or n.get('name') or ''
         args = [a for a in n.get('args', []) if a is not None]
         nm = q.rsplit('::', 1)[-1]
+        if q in self.m.hooks:
+            return self.m.hooks[q](self, nid, n, args)
         if q.startswith('std::basic_string::') and n.get('recv') is not None:
             s = self.ev(n['recv'])
             if not isinstance(s, Str):
@@ -912,7 +916,7 @@ class _Frame:
             if isinstance(v, Str):
                 return Str([('hex', tuple(v.t))])
             self.unknown(nid, 'convert_to_hex of a non-string')
-        if q == 'osmium::geom::Coordinates::append_to_string' and n.get('recv') is not None:
+        if q == 'osmium::geom::Coordinates::append_to_string' and n.get('recv') is not None and self.m.atomic_points:
             c = self.ev(n['recv'])
             s = self.ev(args[0])
             rest = [self.ev(a) for a in args[1:]]
